@@ -143,8 +143,13 @@ def do_hstep(w, ev):
             elif a == "save_merge":
                 A, B, c, v, p = args
                 VER[0] = v
-                ds = w.runner.run_combos(combos_of(A, B, c), verbosity=0)
-                xyz.save_merge_ds(ds, w.data_name, overwrite=pol[p], engine=w.engine)
+                if w.variant.get("other_harvester"):
+                    # the same change of the file made by another live Harvester object (another session / process)
+                    other = xyz.Harvester(w.runner, w.data_name, engine=w.engine)
+                    other.harvest_combos(combos_of(A, B, c), overwrite=pol[p], verbosity=0)
+                else:
+                    ds = w.runner.run_combos(combos_of(A, B, c), verbosity=0)
+                    xyz.save_merge_ds(ds, w.data_name, overwrite=pol[p], engine=w.engine)
             elif a == "expand_dims":
                 w.h.expand_dims("c", 7)
             elif a == "drop_sel":
